@@ -12,12 +12,41 @@ func tokenString(s string) string {
 	s = strings.Trim(s, " \t\n\r")
 	lastChar := len(s) -1
 	if s[0] == char_doublequote && s[lastChar] == char_doublequote {
-		return s[1:lastChar]
+		return unescapeDoubleQuoted(s[1:lastChar])
 	}
 	if s[0] == char_singlequote && s[lastChar] == char_singlequote {
 		return s[1:lastChar]
 	}
 	return s
+}
+
+// inside double quotes \n \t \" and \\ stand for line feed, tab, double quote and backslash
+// (RFC7950 Sec 6.1.3), any other backslash is kept as it is written (as YANG 1 allows)
+func unescapeDoubleQuoted(s string) string {
+	if strings.IndexByte(s, char_backslash) < 0 {
+		return s
+	}
+	var sb strings.Builder
+	for i := 0; i < len(s); i++ {
+		if s[i] == char_backslash && i+1 < len(s) {
+			switch s[i+1] {
+			case 'n':
+				sb.WriteByte('\n')
+				i++
+				continue
+			case 't':
+				sb.WriteByte('\t')
+				i++
+				continue
+			case char_doublequote, char_backslash:
+				sb.WriteByte(s[i+1])
+				i++
+				continue
+			}
+		}
+		sb.WriteByte(s[i])
+	}
+	return sb.String()
 }
 
 // Lex implements goyacc interface
